@@ -259,6 +259,9 @@ def check_accumulator(ctx, a, rb, lp, acc, errb):
     head, blks = lp
     # acc definitions: one `const 0` outside the loop + adds inside
     l = [i for i, ld in enumerate(a.body['locals']) if ld.get('n') == acc]
+    if len(l) > 1:
+        # (an inlined helper and its caller may both have a variable of that name: the accumulator is the one updated in the loop)
+        l = [i for i in l if any(d[1] in blks for d in a.flow.defs.get(i, []))]
     ok0 = False
     if len(l) == 1:
         ds = a.flow.defs.get(l[0], [])
